@@ -576,7 +576,7 @@ class CallMixin:
                     s2.assume(self.spec_eval(s2, rs["when"], fid, old_heap, entry, {}))
                 for item in SP._labelled(rs.get("ensures", []), "rpost"):
                     s2.assume(self.spec_eval(s2, item[1], fid, old_heap, entry, {"exc": ev_}))
-                self.run_after(s2, "after_raise", name, n, fid, old_heap, entry, {"exc": ev_}, c.extra.get("ghosts", {}))
+                self.run_after(s2, "after_raise", name, n, fid, old_heap, entry, {"exc": ev_}, c.extra.get("ghosts", {}) if c is self.cur else ())
                 if self.feasible(s2):
                     s2.trail.append("call:%s#%d:raises%d" % (name, n, ri))
                     outcomes.append(Res(s2, exc=ev_))
@@ -587,7 +587,7 @@ class CallMixin:
             result = self.sym(s, "ret_" + name.split(".")[-1], c.returns) if c.returns != "none" else SV("none")
             for label, src, props in c.ensures:
                 s.assume(self.spec_eval(s, src, fid, old_heap, entry, {"result": result}))
-            self.run_after(s, "after", name, n, fid, old_heap, entry, {"result": result}, c.extra.get("ghosts", {}))
+            self.run_after(s, "after", name, n, fid, old_heap, entry, {"result": result}, c.extra.get("ghosts", {}) if c is self.cur else ())
             if c.raises:
                 s.trail.append("call:%s#%d:ok" % (name, n))
             if not c.raises or self.feasible(s):
@@ -605,7 +605,7 @@ class CallMixin:
             return
         saved = s.frames[fid]["$parent"]
         s.frames[fid]["$parent"] = self.root_fid
-        # the caller's own ghost variables win over equally named ghost outputs of the callee (recursive calls)
+        # recursive call: the caller's own ghost variables win over the equally named ghost outputs of the callee
         own = set(self.cur.extra.get("ghosts", {}))
         shadowed = {g: s.frames[fid].pop(g) for g in list(s.frames[fid]) if g in own and g in c_ghosts}
         try:
